@@ -235,6 +235,7 @@ def mon_expect(run, script, il, iab, ml):
     """evaluate the '#=' expectations relevant to run.prop"""
     P = run.prop
     hoplist = None
+    relisted = None
     hopk = 0
     air_before = b''
     for i, kind, args in expectations(il):
@@ -326,11 +327,12 @@ def mon_expect(run, script, il, iab, ml):
             if ws:
                 run.violation('idle interrupt invocation wrote register %x' % ws[0]['reg'], script)
         elif kind == 'loratx' and P in ('C06',):
-            run.cov['monitor_checks'] += 1
             data = '' if args[0] == '-' else args[0]
             call = next((fields(l) for l in ops if l.startswith('lora_tx_set_for_transmission')), None)
             if call is None or not dumps:
+                run.cov['monitor_skipped'] = run.cov.get('monitor_skipped', 0) + 1
                 continue
+            run.cov['monitor_checks'] += 1
             rc = call.get('rc')
             n = len(data) // 2
             if n == 0:
@@ -365,6 +367,11 @@ def mon_expect(run, script, il, iab, ml):
         elif kind == 'hoplist' and P == 'C16':
             hoplist = [int(x) for x in args[0].split(',')]
             hopk = 0
+        elif kind == 'relist' and P == 'C16':
+            # C16 fixes the sequence from a packet boundary for one list; after a change of the list in
+            # the middle of a packet the index is checked again from the next boundary on
+            relisted = [int(x) for x in args[0].split(',')]
+            hoplist = None
         elif kind == 'hop' and P == 'C16' and hoplist:
             run.cov['monitor_checks'] += 1
             f = irqs[-1] if irqs else {}
@@ -381,6 +388,9 @@ def mon_expect(run, script, il, iab, ml):
                 run.violation('channel change coinciding with the end of a packet caused a hop', script)
             if handle_of(f).get('cf') != '0':
                 run.violation('hop index not reset at the end of a packet', script)
+            hopk = 0
+        elif kind == 'hopend' and P == 'C16' and relisted:
+            hoplist, relisted = relisted, None
             hopk = 0
         elif kind == 'ldro' and P == 'C13' and dumps:
             run.cov['monitor_checks'] += 1
